@@ -38,8 +38,10 @@ RULE = ('cmp cases: all ordered pairs (and, for the order laws, all triples) of 
         '(also directly on an MVContext), lindig_algorithm, sofia, random_forest_concepts, ConceptLattice.'
         'from_context with each algo, and read back from dict / json: accepted and ordered across routes, refused '
         'across contexts incl. MVContext vs its binarised FormalContext); fromobj cases: every object subset of a context with <= 6 (quick) / 8 (thorough) objects by '
-        'index and by name, permuted subsets, unknown names, is_extent, is_monotone; pallobj cases: every object subset of many-valued contexts mixing SetPS (empty value sets, '
-        'multi-valued rows), AttributePS and the two interval engines; setattr: every public '
+        'index and by name, permuted subsets, listings that repeat objects (shorter than, as long as and longer than the '
+        'number of objects), unknown names, is_extent, is_monotone; pallobj cases: every object subset of many-valued contexts mixing SetPS (empty value sets, '
+        'multi-valued rows), AttributePS and the two interval engines, with the pattern_types dict listed in '
+        'another order than attribute_names (directly, or through a column-reordered slice K[:, cols]); setattr: every public '
         'field; non-trivial = a cmp case with >= 3 concepts of which two are comparable and two are not, or a '
         'fromobj case on a non-constant table')
 EXHAUSTIVE = {'thorough': 'from_objects on every object subset of every generated context with <= 8 objects, '
@@ -100,13 +102,29 @@ def cell_value(cell):
     return bool(cell[1])
 
 
+def ps_order(c):
+    """The order of the pattern_types dict (= of K.pattern_structures) as positions in attribute_names."""
+    return list(c.get('order') or range(len(c['anames'])))
+
+
 def make_mv(c):
     from fcapy.mvcontext import MVContext, PS
     names = [nm(k) for k in c['anames']]
-    ptypes = {n: getattr(PS, t) for n, t in zip(names, c['ptypes'])}
+    order = ps_order(c)
     data = [[cell_value(x) for x in row] for row in c['data']]
-    return MVContext(data=data, pattern_types=ptypes, object_names=[nm(k) for k in c['onames']],
-                     attribute_names=names)
+    onames = [nm(k) for k in c['onames']]
+    if c.get('via_slice'):
+        # a context whose attributes are listed in dict order, then the column-reordered slice K[:, cols]:
+        # attribute_names and the data are re-ordered, the pattern_types dict keeps its order
+        src_names = [names[p] for p in order]
+        src = MVContext(data=[[row[p] for p in order] for row in data],
+                        pattern_types={names[p]: getattr(PS, c['ptypes'][p]) for p in order},
+                        object_names=onames, attribute_names=src_names)
+        K = src[:, [order.index(i) for i in range(len(names))]]
+        assert list(K.attribute_names) == names
+        return K
+    ptypes = {names[p]: getattr(PS, c['ptypes'][p]) for p in order}
+    return MVContext(data=data, pattern_types=ptypes, object_names=onames, attribute_names=names)
 
 
 def make_ctx(c):
@@ -459,9 +477,9 @@ def run_pallobj(case):
     for objs, is_extent in case['items']:
         def go():
             c = PatternConcept.from_objects(list(objs), K, is_extent=is_extent)
-            n = len(case['ctx']['anames'])
-            intent = [desc_json(c.intent_i[j]) for j in range(n)]
-            if [desc_json(c.intent[nm(a)]) for a in case['ctx']['anames']] != intent:
+            order = ps_order(case['ctx'])
+            intent = [desc_json(c.intent_i[j]) for j in range(len(order))]
+            if [desc_json(c.intent[nm(case['ctx']['anames'][p])]) for p in order] != intent:
                 raise RuntimeError('intent and intent_i disagree')
             return [canon(list(c.extent_i)), name_ids(c.extent), intent, canon(c.context_hash)]
         r = guarded(go, 20)
@@ -542,7 +560,7 @@ def to_coq(case, out):
             if r[0] == 'ok' and is_idx_list(r[1][0]) and isinstance(r[1][3], int):
                 a, an, ds, h = r[1]
                 t = '(PAOk %s %s [%s] %s)' % (coq(a), coq(an), '; '.join(
-                    pdesc_term_col(d, pt) for d, pt in zip(ds, case['ctx']['ptypes'])), zlit(h))
+                    pdesc_term_col(d, case['ctx']['ptypes'][p]) for d, p in zip(ds, ps_order(case['ctx']))), zlit(h))
             elif r[0] == 'ok':
                 t = '(PAErr 12)'
             else:
@@ -560,7 +578,9 @@ PS_ = 'FCA.Model.PatternStructure.'
 def mvk_term(c):
     """The context as a value of the C13/C14 model (Model/MVContext.v)."""
     cols = []
-    for j, t in enumerate(c['ptypes']):
+    order = ps_order(c)
+    for j in order:         # K.pattern_structures follows the pattern_types dict, not attribute_names
+        t = c['ptypes'][j]
         col = [row[j] for row in c['data']]
         if t in ('IntervalPS', 'IntervalNumpyPS'):
             cells = '; '.join('(%s, %s)' % (zlit(cell_code(x)[0]), zlit(cell_code(x)[1])) for x in col)
@@ -570,7 +590,7 @@ def mvk_term(c):
         else:
             cols.append('(%sCAttr %s)' % (PS_, coq([bool(x[1]) for x in col])))
     return '(FCA.Model.MVContext.mkMV %d [%s] %s %s %s)' % (
-        len(c['data']), '; '.join(cols), coq(c['onames']), coq(c['anames']), coq(c['anames']))
+        len(c['data']), '; '.join(cols), coq(c['onames']), coq([c['anames'][j] for j in order]), coq(c['anames']))
 
 
 def pdesc_term(d):
@@ -795,6 +815,23 @@ def mining_case(rng, tier):
     return {'kind': 'cmp', 'pattern': True, 'stream': 'mining', 'ctxs': [c], 'sel': sel}
 
 
+def repeated_listings(rng, n, count):
+    """Object listings that repeat elements: shorter than, exactly as long as, and longer than n."""
+    out = []
+    if n == 0:
+        return out
+    for k in range(count):
+        base = gen.random_subset(rng, n, allow_empty=False, allow_full=(n == 1))
+        if not base:
+            continue
+        length = [n, n, max(1, n - 1), n + rng.randint(1, 2), rng.randint(len(base), 2 * n)][k % 5]
+        l = list(base)
+        while len(l) < length:
+            l.insert(rng.randint(0, len(l)), rng.choice(base))
+        out.append(l)
+    return out
+
+
 def fromobj_items(rng, c, exhaustive_upto):
     n = n_objects(c)
     items = []
@@ -809,6 +846,9 @@ def fromobj_items(rng, c, exhaustive_upto):
             items.append([False, s, False, False])
             if s:
                 items.append([True, [c['onames'][i] for i in s], False, False])
+    for l in repeated_listings(rng, n, 6):      # a listing is a set: repeats do not matter, whatever its length
+        items.append([False, l, False, False])
+        items.append([True, [c['onames'][i] for i in l], False, False])
     for _ in range(8):      # permuted, is_extent, monotone, unknown names
         s = gen.random_subset(rng, n)
         rng.shuffle(s)
@@ -863,7 +903,16 @@ def pallobj_case(rng, tier):
                 row.append(['b', rng.random() < 0.5])
         rows.append(row)
     c = {'onames': rng.sample(range(60), h), 'anames': rng.sample(range(60), w), 'ptypes': ptypes, 'data': rows}
+    if w >= 2 and rng.random() < 0.6:       # pattern_types listed in another order than attribute_names,
+        order = list(range(w))              # directly or through a column-reordered slice K[:, cols]
+        while order == list(range(w)):
+            rng.shuffle(order)
+        c['order'] = order
+        # (slicing a context with an IntervalNumpyPS column raises TypeError in the unchanged library:
+        #  __getitem__ hands numpy rows to IntervalPS._transform_data -- sub-contexts are not C08's subject)
+        c['via_slice'] = rng.random() < 0.5 and 'IntervalNumpyPS' not in ptypes
     items = [[s_, False] for s_ in gen.all_subsets(h)]
+    items += [[l, False] for l in repeated_listings(rng, h, 3)]
     for _ in range(4):
         s_ = gen.random_subset(rng, h)
         rng.shuffle(s_)
@@ -884,15 +933,15 @@ def hash_case(rng):
 def generate(rng, tier):
     quick = tier == 'quick'
     cases = []
-    n_cmp = 150 if quick else 1800
+    n_cmp = 120 if quick else 1800
     streams = ['single'] * 5 + ['cross'] * 3 + ['equal'] + ['collide']
     for _ in range(n_cmp):
         cases.append(cmp_case(rng, tier, rng.choice(streams), pattern=rng.random() < 0.35))
-    for _ in range(70 if quick else 500):
+    for _ in range(60 if quick else 500):
         cases.append(history_case(rng, tier, pattern=rng.random() < 0.6))
     for _ in range(40 if quick else 400):
         cases.append(mining_case(rng, tier))
-    for i in range(80 if quick else 700):
+    for i in range(70 if quick else 700):
         cases.append(routes_case(rng, tier, pattern=rng.random() < 0.5, with_rf=(i % (30 if quick else 12) == 0)))
     for _ in range(30 if quick else 400):
         cases.append(fromobj_case(rng, tier, pattern=False))
